@@ -169,7 +169,8 @@ PROPS = {
              "k table entries, heartbeats; Kafka k requests, k topics, one correlation id k times; HTTP k pipelined messages, "
              "k headers, k cookies, k chunks, k query parameters, HTTP/2 k DATA frames / streams / open streams / header fields / pings), "
              "each measured at k=64 and k=512 (thorough also 256 and 4096): the allocation at the larger size may not exceed twice "
-             "what the smaller run predicts for that many bytes; the real Dissect "
+             "what the smaller run predicts for that many bytes, the wall time not five times that plus a second; HTTP messages with 4000 / 64000 "
+             "distinct header, cookie, query and form-field names are dissected as whole exchanges, so that the item is analysed; the real Dissect "
              "and the later stages run under measurement (TotalAlloc, wall time) and a per-case kill timer; "
              "bound: alloc <= 4096 n + 512 KiB, time <= 2 s + n/100 ms, no panic, returns; redis.raw / amqp.raw: the "
              "models the theorems speak about (packets and array elements <= bytes; AMQP events <= bytes / 4, body bytes "
@@ -285,8 +286,8 @@ PROPS = {
         assumptions=["AMQP, Kafka and HTTP read only through io.ReadFull/bufio (to be tied by reader-touch facts)"],
     ),
     "C09": dict(
-        proof_modules=["KsVerif.Proofs.C09"],
-        families=["sched.match.redis", "sched.match.http", "sched.match.http10", "sched.match.amqp", "sched.match.kafka", "sched.excl", "http2.conv"],
+        proof_modules=["KsVerif.Proofs.C09", "KsVerif.Proofs.C10"],
+        families=["sched.match.redis", "sched.match.http", "sched.match.http10", "sched.match.amqp", "sched.match.kafka", "sched.excl", "http2.conv", "http2.order"],
         rule="http2.conv: pairing by stream id on interleaved HTTP/2 streams with control frames (incl. a graceful GOAWAY) between the "
              "frames of a stream - one item per completed stream, nothing left in the matcher (see C04); "
              "sched.excl: with one half parked AT a yield point inside the matcher's locked region, the other half must block "
@@ -300,7 +301,7 @@ PROPS = {
     ),
     "C10": dict(
         proof_modules=["KsVerif.Proofs.C10"],
-        families=["sched.match.redis", "sched.match.http", "sched.match.http10", "sched.match.amqp", "sched.match.kafka", "sched.excl", "sched.indep"],
+        families=["sched.match.redis", "sched.match.http", "sched.match.http10", "sched.match.amqp", "sched.match.kafka", "sched.excl", "sched.indep", "http2.order"],
         rule="sched.indep: HEAD / GET conversations (which the dissector misreads - a recorded finding - so that no model predicts the "
              "items) under every interleaving of the two halves: pairs and residue must equal those of the run 'client half first'; "
              "sched.excl: with one half parked AT a yield point inside the matcher's locked region, the other half must block; "
@@ -326,7 +327,7 @@ PROPS = {
     ),
     "C20": dict(
         proof_modules=["KsVerif.Proofs.C20"],
-        families=["progress", "sched.dump", "progress.redis", "progress.amqp", "progress.http", "progress.kafka"],
+        families=["progress", "sched.dump", "progress.redis", "progress.amqp", "progress.http", "progress.kafka", "progress.h2c"],
         rule="progress.<proto>: the conversations of the conv families dissected through readers that feed the progress counter as "
              "the tap does (whole, byte by byte, in pieces of 1-700 bytes): the capture sizes of all messages - in emitted items and "
              "still waiting in the matcher - plus what the two counters hold at the end must equal the bytes fed (Kafka: the sizes "
